@@ -279,6 +279,77 @@ func c09R2(r *core.Report, sc *scanClosure) {
 	r.Check(!found, rule, sc.f, "placeholder terminator is re-dispatched only when it is '@'", innerDef.Pos(),
 		"from the terminator's definition the next outer iteration is reached without Next() only through the true edge of c == '@'",
 		"a path re-enters the dispatch loop with the placeholder's terminator still in the cursor without knowing it is '@' (e.g. the nil-argument `continue`): an apostrophe delimiter is then emitted by the default arm (`T(\"a@x'b\")` with empty x renders `a'b`)")
+	// (d) ... and when it is '@' it always is: from the edge on which the terminator is known to be '@', the dispatch is
+	// reached before any Next() (a `continue` that runs a post statement `c = s.Next()` swallows the '@' that starts the
+	// next placeholder)
+	type atEdge struct {
+		b *cfgBlock
+		k int
+	}
+	var atEdges []atEdge
+	seenAt := map[atEdge]bool{}
+	for _, dn := range innerDefs {
+		sc.g.Reach(sc.g.PointOf(dn), false, cfgx.Query{
+			Target: func(q cfgx.Point) bool { return false },
+			Cut:    func(q cfgx.Point) bool { return sc.defsCursor(q.Node()) || (q.B == bodyEntry && q.I == 0) },
+			CutEdge: func(b *cfgBlock, k int) bool {
+				if len(b.Succs) != 2 || len(b.Nodes) == 0 {
+					return false
+				}
+				e, ok := b.Nodes[len(b.Nodes)-1].(ast.Expr)
+				if !ok {
+					return false
+				}
+				for _, a := range cfgx.Atoms(e, k == 0) {
+					if isAt(a) {
+						if !seenAt[atEdge{b, k}] {
+							seenAt[atEdge{b, k}] = true
+							atEdges = append(atEdges, atEdge{b, k})
+						}
+						return true
+					}
+				}
+				return false
+			},
+		})
+	}
+	swallowed := ""
+	for _, e := range atEdges {
+		tp, lost := sc.g.Reach(cfgx.Point{B: e.b.Succs[e.k], I: 0}, true, cfgx.Query{
+			Target: func(q cfgx.Point) bool { return q.Node() != nil && sc.defsCursor(q.Node()) },
+			Cut:    func(q cfgx.Point) bool { return q.B == bodyEntry && q.I == 0 },
+			CutEdge: func(b *cfgBlock, k int) bool {
+				// edges on which the cursor would not be '@'
+				if len(b.Succs) != 2 || len(b.Nodes) == 0 {
+					return false
+				}
+				c, ok := b.Nodes[len(b.Nodes)-1].(ast.Expr)
+				if !ok {
+					return false
+				}
+				for _, a := range cfgx.Atoms(c, k == 0) {
+					if v, known := varEqConst(info, a, sc.cursor, '@'); known && !v {
+						return true
+					}
+					for _, other := range []int64{-1, '\''} {
+						if v, known := varEqConst(info, a, sc.cursor, other); known && v {
+							return true
+						}
+					}
+				}
+				return false
+			},
+		})
+		if lost {
+			swallowed = "with the terminator known to be '@' the cursor is overwritten at " + r.Prog.Pos(tp.Node().Pos()) + " (`" + core.ExprStr(tp.Node()) + "`) before the dispatch sees it"
+		}
+	}
+	if len(atEdges) == 0 {
+		swallowed = "no test of the terminator against '@' is reached from the name scan"
+	}
+	r.Check(swallowed == "", rule, sc.f, "a placeholder terminated by '@' hands that '@' to the dispatch", innerDef.Pos(),
+		"from every edge on which the terminator is known to be '@' the dispatch is reached before the next Next()",
+		swallowed+": the '@' that ends one placeholder and starts the next is lost (`@a@b` renders the text `b` instead of the argument b)")
 	// (b) emits of the terminator are guarded by c != '\''
 	n := 0
 	seenEmit := map[cfgx.Point]bool{}
@@ -416,6 +487,11 @@ func c09R4(r *core.Report, sc *scanClosure) {
 	r.Floor(rule, 1)
 	info := sc.f.Info()
 	found := false
+	type absentEdge struct {
+		b *cfgBlock
+		k int
+	}
+	var absentEdges []absentEdge
 	for _, br := range sc.g.Branches() {
 		// `ok` or `!ok` of a comma-ok lookup in the argument map
 		atoms := cfgx.Atoms(br.Cond, true)
@@ -439,6 +515,7 @@ func c09R4(r *core.Report, sc *scanClosure) {
 		if !atoms[0].Val {
 			absent = 0 // the condition is !ok
 		}
+		absentEdges = append(absentEdges, absentEdge{br.B, absent})
 		start := cfgx.Point{B: br.B.Succs[absent], I: 0}
 		tp, escapes := sc.g.Reach(start, true, cfgx.Query{
 			Target: func(q cfgx.Point) bool {
@@ -457,7 +534,29 @@ func c09R4(r *core.Report, sc *scanClosure) {
 	}
 	if !found {
 		r.Anchor(rule, "comma-ok lookup of the placeholder name in the argument map")
+		return
 	}
+	// ... and nothing else panics: every panic of the closure is behind an absent edge
+	for _, pp := range sc.g.Points(func(n ast.Node) bool { return isPanicNode(info, n) }) {
+		ok := false
+		for _, e := range absentEdges {
+			if sc.g.EdgeDominates(e.b, e.k, pp) {
+				ok = true
+			}
+		}
+		r.Check(ok, rule, sc.f, "the template panics only for an unbound placeholder", pp.Node().Pos(),
+			"the panic is reached only through the absent edge of the argument lookup",
+			"`"+core.ExprStr(pp.Node())+"` is reachable without the argument lookup having failed: a well-formed template with all its placeholders bound can panic")
+	}
+}
+
+// isPanicNode: the CFG node is (a statement that is) a call of the builtin panic.
+func isPanicNode(info *types.Info, n ast.Node) bool {
+	if es, ok := n.(*ast.ExprStmt); ok {
+		n = es.X
+	}
+	call, ok := n.(*ast.CallExpr)
+	return ok && core.CalleeName(info, call) == "builtin.panic"
 }
 
 func c09R5(p *core.Program, r *core.Report, sc *scanClosure) {
@@ -715,6 +814,22 @@ func c09R5(p *core.Program, r *core.Report, sc *scanClosure) {
 		}
 	}
 	r.Check(def != nil && endsInPanic(info, def.Body), rule, sc.f, "any other verb panics", sw.Pos(), "default arm ends in panic", "an unsupported verb does not panic")
+	// ... and nothing else panics: every panic of the closure is the argument helper's or in an arm of the verb switch
+	ast.Inspect(sc.f.Body, func(n ast.Node) bool {
+		call, isCall := n.(*ast.CallExpr)
+		if !isCall || core.CalleeName(info, call) != "builtin.panic" {
+			return true
+		}
+		inside := func(m ast.Node) bool { return m != nil && m.Pos() <= call.Pos() && call.End() <= m.End() }
+		ok := inside(sw)
+		if getArgLit != nil && inside(getArgLit) {
+			ok = true
+		}
+		r.Check(ok, rule, sc.f, "Sprintf panics only for a missing argument or an unknown verb", call.Pos(),
+			"the panic is the argument helper's or in an arm of the verb switch",
+			"`"+core.ExprStr(call)+"` is neither the argument helper's panic nor in the verb switch: it is decided on something other than the verb being interpreted and the arguments left for it (a format whose escaped `%%v` is counted as a verb panics)")
+		return true
+	})
 	// the verb switch is reached only after '%': enclosing clause of the outer switch
 	path := core.PathTo(sc.f.Body, sw)
 	inPercent := false
